@@ -20,6 +20,7 @@ RULE = (
     "(shape, index expression) / program. Reassemble: 2-4 pieces selected by indexing (empty slices, all-False masks, empty / repeated "
     "integer lists, strides), scaled, re-assembled by concatenate / hstack / append in a drawn arrangement that may use a piece several "
     "times; the scatter model gives the source position of every output slot (vjp == bincount, jvp == the same arrangement of the tangent)."
+    ' int_cotangent: integer cotangents through dense-and-gathered uses in four orders (raise, or 2 g + scatter(g)).'
 )
 
 
